@@ -47,8 +47,10 @@ Fixpoint heads (f : obj) : list string :=
   | L xs => (fix go (l : list obj) : list string := match l with [] => [] | a :: r => heads a ++ go r end) xs
   | _ => []
   end.
-(* the functions are reloaded in name order: a body may only call user functions and macros that sort before its
-   own name [C19-snapshot-forward-reference] *)
+(* functions and macros are reloaded together in name order: a body may only call user functions and use user macros
+   that sort before its own name.  A macro used before it exists is compiled as a call [C19-macro-after-function];
+   a function that is called before it is defined works since slip commit e532307, but it is then registered
+   without its name and the NEXT snapshot writes (defun (x) ...) [C19-forward-reference-nameless]. *)
 Definition calls_ok (funs : list (string * frec)) (kv : string * frec) : bool :=
   forallb (fun h => match alookup funs h with
                     | Some _ => String.ltb h (fst kv)
